@@ -33,6 +33,18 @@ def gen_for(pid, rng, tier):
             spec["penalty_switch"] = True
             if rng.random() < 0.7:
                 spec["limits"] = None
+        elif rng.random() < 0.08 and spec["cost"][0] == "scalar":
+            # ExtraArgs handed to Step, then changed on the LIVE solver - to another tuple, to the EMPTY tuple, back
+            spec["penalty"] = None; spec["constraints"] = None; spec["ranges"] = None; spec["reducer"] = None
+            spec["limits"] = None; spec["termination"] = ("never",)
+            pool = [(1.5,), (100.0, 0.25), (), (-3.0,), (0.5, 0.5, 2.0)]
+            first = rng.choice(pool)
+            ops = [("step", {"extra": first})] + [("step",)] * rng.randint(1, 4)
+            for _ in range(rng.randint(1, 3)):
+                ops.append(("step", {"extra": rng.choice([a for a in pool if a != first] + [()])}))
+                ops += [("step",)] * rng.randint(1, 4)
+            spec["ops"] = ops
+            spec["extra_run"] = True; spec["flavour"] = "extra"
     elif pid == "C02":
         spec = solvergen.gen_spec(rng, maxdim=maxdim, nsteps=nsteps, flavour="steps" if k < 0.5 else "ops")
         if not spec.get("ranges") and rng.random() < 0.8:
@@ -637,6 +649,8 @@ def run_shard(pid, seed, shard, ncases, tier, extra):
             c2 = dict(case); c2["where"] = ex
             findings.append(Finding("monitor", key, what, c2))
         for which in CORR[pid]:
+            if spec.get("extra_run"):
+                break              # ExtraArgs runs: monitor only (the algorithm models take the cost as a function of x alone)
             line, cmp = REQ[which](spec, rec)
             if line is not None:
                 lines.append(line); cmps.append(cmp); metas.append((which, case))
